@@ -52,7 +52,7 @@ func main() {
 				env.Clear()
 				return
 			}
-			fmt.Printf("%q => %s   (%T)\n", a, v.SexpString(nil), v)
+			fmt.Printf("%q => %s   (%T)  depths=%+v\n", a, v.SexpString(nil), v, env.VerifDepths())
 		}()
 	}
 }
